@@ -203,3 +203,55 @@ Lemma set_address_midseq dbg h q :
 Proof.
   intros Hq. cbn [execute]. destruct (0 <? r_addr q) eqn:E; [reflexivity|lia].
 Qed.
+
+(* ================================================================== known-finding witnesses *)
+
+Definition wit_f1 : file_entry := mk_file (VString [x61]) 1 0 0 (repeat x00 16) None.
+Definition wit_f2 : file_entry := mk_file (VString [x62]) 0 0 0 (repeat x00 16) None.
+Definition wit_sx : secs := mk_secs [] [] None.
+Definition wit_std13 : list byte := [x00; x01; x01; x01; x01; x00; x00; x00; x01; x00; x00; x01].
+
+(* known_findings.txt `c12.line 1 4 3 1 1 -5 14 1 00050200003000dc00050200003802000101`:
+   set_address 0x3000; special 220 (address += 15, line += 4); set_address 0x3802; end_sequence *)
+Definition wit_midseq : header :=
+  mk_header false 3 4 0 0 1 1 true (-5)%Z 14 1 [] [] [VString [x64]] [] [wit_f1; wit_f2]
+    [x00;x05;x02;x00;x00;x30;x00; xdc; x00;x05;x02;x00;x00;x38;x02; x00;x01;x01].
+
+(* VLIW (max_ops 4): set_address 0x3000; advance_pc 1 (op_index 1); copy; fixed_advance_pc 0 (op_index 0 at the
+   same address); copy; end_sequence *)
+Definition wit_vliw : header :=
+  mk_header false 4 4 0 0 1 4 true (-5)%Z 14 13 wit_std13 [] [VString [x64]] [] [wit_f1; wit_f2]
+    [x00;x05;x02;x00;x30;x00;x00; x02;x01; x01; x09;x00;x00; x01; x00;x01;x01].
+
+Definition wit_events (dbg be : bool) (h : header) : option (list clrow * status) :=
+  match cl_new dbg wit_sx (mk_src h None None) [] with
+  | Ok c => Some (fst (events dbg be wit_sx h c))
+  | _ => None
+  end.
+Definition wit_convert (dbg be : bool) (h : header) : option (res (list linsn)) :=
+  match cl_new dbg wit_sx (mk_src h None None) [] with
+  | Ok c => Some (match convert dbg be wit_sx h (fun a => Some (AConst a)) c with
+                  | Ok c' => Ok (p_insns (cl_prog c')) | Err e => Err e | Panic => Panic | OutOfFuel => OutOfFuel end)
+  | _ => None
+  end.
+
+(* F10: the source (C04 reader model) ends the sequence at 0x3802; the converter drops the second set_address
+   and ends the sequence at offset 15 from 0x3000 — conversion "succeeds" with a different meaning *)
+Lemma midseq_witness : forall dbg,
+  known_midseq dbg true wit_midseq = true /\
+  map r_addr (fst (rows_model dbg true wit_midseq)) = [12303; 14338] /\
+  snd (rows_model dbg true wit_midseq) = SEnd /\
+  wit_events dbg true wit_midseq =
+    Some ([CRSetAddress 12288; CRRow (mkWrow 15 0 0 5 0 0 true false false false 0); CREndSequence 15], SEnd) /\
+  wit_convert dbg true wit_midseq =
+    Some (Ok [LineWr.ISetAddress (AConst 12288); LineWr.ISpecial 232; LineWr.IEndSequence]).
+Proof. intros []; vm_compute; repeat split; reflexivity. Qed.
+
+(* VLIW: debug builds panic in write::LineProgram::op_advance, release builds emit advance_pc(2^64 - 1) *)
+Lemma vliw_witness :
+  known_vliw wit_vliw = true /\ known_midseq true false wit_vliw = false /\
+  wit_convert true false wit_vliw = Some Panic /\
+  wit_convert false false wit_vliw =
+    Some (Ok [LineWr.ISetAddress (AConst 12288); LineWr.ISpecial 32; LineWr.IAdvancePc 18446744073709551615;
+              LineWr.ICopy; LineWr.IEndSequence]).
+Proof. vm_compute. repeat split; reflexivity. Qed.
